@@ -146,6 +146,7 @@ def file_cases(level, ext):
             for o in ("", "S", "I", "Q"):
                 c.append(("xz", "d", T, o + ("K" if o else "")))
                 c.append(("xz", "t", T, o))
+            c.append(("xz", "d", T, "S"))       # --single-stream given BEFORE -d and without -k: the source must stay
             c.append(("xz", "dcfile", T, ""))
             c.append(("xz", "t", T, "q")); c.append(("xz", "dc", T, "q")); c.append(("xz", "dc", T, "C")); c.append(("xz", "t", T, "C"))   # C: an encoder-only option given while decompressing changes nothing
         c.append(("xz", "dcstdin", 1, ""))
@@ -157,7 +158,7 @@ def file_cases(level, ext):
         c += [("xz", "dc", 1, ""), ("xz", "dc", 2, ""), ("xz", "dc", 4, ""),
               ("xz", "dc", 1, "S"), ("xz", "dc", 1, "I"), ("xz", "dc", 1, "F"), ("xz", "dc", 1, "Q"),
               ("xz", "dc", 4, "S"), ("xz", "dc", 4, "I"),
-              ("xz", "d", 1, "K"), ("xz", "d", 4, "K"), ("xz", "d", 1, "S"),
+              ("xz", "d", 1, "K"), ("xz", "d", 4, "K"), ("xz", "d", 1, "S"), ("xz", "d", 1, ""),
               ("xz", "t", 1, ""), ("xz", "t", 4, ""), ("xz", "t", 1, "q"), ("xz", "dc", 1, "q"), ("xz", "dc", 1, "C"),
               ("xz", "dcfile", 1, ""),
               ("xzdec", "file", 0, "")]
@@ -228,7 +229,15 @@ def run_file_case(B, wd, inp_path, ext, data, L, case):
             tgt = os.path.join(dd, "in")
             created = os.path.exists(tgt)
             content = open(tgt, "rb").read() if created else None
+            src_left = os.path.exists(src)
             shutil.rmtree(dd, ignore_errors=True)
+            # the source: kept with -k, with --single-stream (xz.1: implies --keep) and whenever decoding failed; removed otherwise
+            if rc is not None and rc >= 0:
+                must_keep = "K" in opts or "S" in opts or rc == 1
+                if must_keep and not src_left:
+                    return "source-removed", "the source file was removed (options %s, exit status %d)" % (" ".join(OPTFLAGS[o] for o in opts) or "none", rc)
+                if not must_keep and src_left and rc == 0:
+                    return "source-kept", "the source file is still there after a successful xz -d without -k"
             if rc is None:
                 return "hang", "timed out"
             if rc < 0:
